@@ -314,8 +314,18 @@ def edit_session(draw) -> List[str]:
     text = printer.to_text(d)
     out = []
     for _ in range(draw(st.integers(2, 4))):
-        k = draw(st.integers(0, 3))
-        if k == 0:
+        k = draw(st.integers(0, 5))
+        if k >= 4 and out:
+            # the previous version re-flowed: the same characters, the same LENGTH, but blanks turned into line breaks
+            # (or the other way round) - whatever is remembered about the file by its size is stale now
+            prev = out[-1]
+            flip = {" ": "\n", "\n": " "} if k == 4 else {" ": "\n"}
+            pos = [i for i, ch in enumerate(prev) if ch in flip]
+            chosen = set(draw(st.lists(st.sampled_from(pos), max_size=40))) if pos else set()
+            if k == 5:
+                chosen = set(pos)
+            out.append("".join(flip[ch] if i in chosen else ch for i, ch in enumerate(prev)))
+        elif k == 0:
             out.append(text[: draw(st.integers(0, len(text)))])
         elif k == 1:
             tt = list(toks)
